@@ -141,8 +141,17 @@ func h18b() {
 		}
 	}
 	// and back
-	back := ConvertMetadataToProtoHeader(metadata.MD{vLowerKey(k): append([]string(nil), got...)})
+	src := metadata.MD{vLowerKey(k): append([]string(nil), got...)}
+	back := ConvertMetadataToProtoHeader(src)
 	vAssert(len(back) == 1 && back[0].Name == vLowerKey(k) && len(back[0].Value) == nv, "converting back preserves key and value count")
+	// the conversion reads its argument: converting the same metadata again gives the same result
+	again := ConvertMetadataToProtoHeader(src)
+	for i := 0; i < 2; i++ {
+		if i < nv && len(again) == 1 && i < len(again[0].Value) && len(back) == 1 && i < len(back[0].Value) {
+			vAssert(src[vLowerKey(k)][i] == got[i], "converting metadata leaves the metadata as it was")
+			vAssert(again[0].Value[i] == vals[i], "-bin values are base64-encoded exactly once, also when the same metadata is converted a second time")
+		}
+	}
 	for i := 0; i < 2; i++ {
 		if i < nv && len(back) == 1 && i < len(back[0].Value) {
 			vAssert(back[0].Value[i] == vals[i], "-bin values are base64-encoded exactly once on the way back; other values are unchanged")
